@@ -42,7 +42,8 @@ def run(rep, pid, script, tier, seed, spec, rule, extra=None, gen_bounds=None):
         p = {'seeds': seeds[i::W], 'files': files[i::W], 'styles': sp.get('styles', 1), 'tier': tier,
              'limit': sp.get('limit', 20), 'file_limit': sp.get('file_limit', 60)}
         p.update(extra or {})
-        if p['seeds'] or p['files']:
+        p['corners'] = (i == 0)          # the fixed corner designs of the generators run once per invocation, in the first worker
+        if p['seeds'] or p['files'] or p['corners']:
             payloads.append(p)
     fails = []
     with cf.ThreadPoolExecutor(W) as ex:
@@ -55,6 +56,7 @@ def run(rep, pid, script, tier, seed, spec, rule, extra=None, gen_bounds=None):
     rep.B['bounds'] = {'designs': sp['designs'], 'styles_per_design': sp.get('styles', 1), 'bundled_files': len(files),
                        'bundled_max_zip_bytes': sp.get('files', {}), 'per_case_time_limit_s': sp.get('limit', 20),
                        'per_file_time_limit_s': sp.get('file_limit', 60), 'workers': W, 'seed': seed,
+                       'fixed_corner_designs': 'run on every invocation (rtcommon.corner_ads / render_eblif.corner_ads)',
                        'skipped_by_name': sorted(SKIP), 'generator': gen_bounds or {}, **(sp.get('note') or {})}
     report(rep, pid, fails)
     return fails
